@@ -311,6 +311,8 @@ deriving Repr, Inhabited
 	// the trailing comment must not swallow the bracket
 	b.WriteString("\n  ]\n\n")
 	b.WriteString("/-- `len(ValidateNodeGroup(c)) == 0`. -/\ndef validate (c : RawCfg) : Bool := (checks c).all id\n\n")
-	fmt.Fprintf(&b, "def numChecks : Nat := %d\ndef numUnknown : Nat := %d\n\nend Esc.Gen\n", len(checks), x.unknown)
+	// only the opaque placeholders that made it into a definition count (a local that is never used in a check does not)
+	used := strings.Count(b.String(), "(Gen.unknown ")
+	fmt.Fprintf(&b, "def numChecks : Nat := %d\ndef numUnknown : Nat := %d\n\nend Esc.Gen\n", len(checks), used)
 	writeIfChanged(filepath.Join(out, "Validate.lean"), b.String())
 }
